@@ -26,17 +26,17 @@ Theorem C16_config_agrees_with_decode :
 Proof. exact @config_agrees_with_decode. Qed.
 Print Assumptions C16_config_agrees_with_decode.
 
-(** Pinned DecodeConfig ([AlphaData == nil]): false.  VP8X + zero-length ALPH +
+(** Pinned DecodeConfig ([AlphaData == nil], before commit f5aa050): false.  VP8X + zero-length ALPH +
     VP8: Decode returns YCbCr, DecodeConfig announces NRGBA (finding). *)
 Theorem C16_zero_len_alph_refuted :
-  ~ config_agrees_statement hdr_lossy hdr_lossless any_alpha false.
+  ~ pinned_config_agrees_statement hdr_lossy hdr_lossless any_alpha.
 Proof. exact zero_len_alph_refuted. Qed.
 Print Assumptions C16_zero_len_alph_refuted.
 
 Theorem C16_zero_len_alph_witness :
   exists img c,
     decode_bytes hdr_lossy hdr_lossless any_alpha false wit_empty_alph = Ok img /\
-    decode_config false false wit_empty_alph = Ok c /\
+    pinned_decode_config wit_empty_alph = Ok c /\
     iModel img = CM_YCbCr /\ cModel c = CM_NRGBA /\
     decode_config true false wit_empty_alph = Ok (mkConfig CM_YCbCr 1 1).
 Proof. exact zero_len_alph_witness. Qed.
